@@ -130,7 +130,7 @@ func (h *H[T]) C10(rc *runCtx) *Violation {
 		serial++
 		hb := &held[T]{hdr: b, cur: b, serial: serial, handle: handle}
 		id := sim.ObjID(unsafe.Pointer(b))
-		sim.Mix(0x9000)
+		sim.Mix(0x9000 | uint64(id)<<16)
 		sim.Tracef("op: Get via handle %d -> buffer #%d (obj#%d)", handle, serial, id)
 		if v := freshCheck(a, b); v != nil {
 			if rec, ok := putHist[id]; ok {
@@ -198,9 +198,8 @@ func (h *H[T]) C10(rc *runCtx) *Violation {
 		hb := out[i]
 		handle := prog.Draw(3)
 		id := sim.ObjID(unsafe.Pointer(hb.cur))
-		sim.Mix(0xa000)
+		sim.Mix(0xa000 | uint64(id)<<16)
 		sim.Tracef("op: Put(#%d) via handle %d (obj#%d len=%d cap=%d; history %+v)", hb.serial, handle, id, hb.cur.Len(), hb.cur.Cap(), hb.hs)
-		putsBefore := sim.Counters[simrt.CtPoolPut]
 		pv := put(handle, hb.cur)
 		rc.ops++
 		if pv != nil {
@@ -208,7 +207,7 @@ func (h *H[T]) C10(rc *runCtx) *Violation {
 			// what is accepted); the buffer is simply forgotten.
 			rc.probes[pRejectedPut]++
 			sim.Tracef("    Put rejected: %v", pv)
-		} else if sim.Counters[simrt.CtPoolPut] > putsBefore {
+		} else {
 			putHist[id] = putRec{hb.hs, handle}
 			if sim.Available() > 0 {
 				gcSinceEmpty = false
